@@ -262,13 +262,9 @@ def run(prog, check):
              and isinstance(n.value, ast.List)]
     sw = Sweep(prog)
     check.saw(sw.f)
-    builders = [f for f in sw.f.cls.methods.values() if len({x.attr for x in ast.walk(f.node) if isinstance(x, ast.Attribute)
-                                                             and x.attr in lists}) >= 3 and f.name != sw.f.name
-                and not any(isinstance(c, ast.Call) and call_name(c) == 'eval' for c in ast.walk(f.node))]
-    if not builders:
-        raise AnalysisError('variable-list builder not found')
-    b = builders[0]
-    check.saw(b)
+    from ..solver_model import variable_list_builder
+    b_raw, b, _D, _parts = variable_list_builder(prog, sw.f.cls)
+    check.saw(b_raw)
     for L in lists:
         in_b = any(isinstance(x, ast.Attribute) and x.attr == L for x in ast.walk(b.node))
         in_s = any(isinstance(x, ast.Attribute) and x.attr == L for x in ast.walk(sw.f.node))
